@@ -1,0 +1,344 @@
+//go:build verif
+
+package ucfg
+
+// Contracts for the deductive verification of this package (see /verif/DESIGN.md).
+// This file is comment-only: it is compiled only with the build tag "verif" and adds no code.
+// Syntax: Gobra-style //@ lines, keyed by function and by loop ordinal (never by line number).
+
+//@ func (*cfgInt).toUint
+//@ props C03
+//@ mode bv
+//@ requires c != nil
+//@ ensures [neg] c.i < 0 ==> err != nil
+//@ ensures [val] c.i >= 0 ==> err == nil && math(result) == math(c.i)
+
+//@ func (*cfgUint).toInt
+//@ props C03
+//@ mode bv
+//@ requires c != nil
+//@ ensures [ovf] math(c.u) > mathlit(9223372036854775807) ==> err != nil
+//@ ensures [val] math(c.u) <= mathlit(9223372036854775807) ==> err == nil && math(result) == math(c.u)
+
+//@ func (*cfgFloat).toInt
+//@ props C03
+//@ mode bv
+//@ requires c != nil
+//@ ensures [val] err == nil ==> !isNaN(c.f) && c.f >= -pow2f(63) && c.f < pow2f(63)
+//@ ensures [err] (isNaN(c.f) || c.f < -pow2f(63) || c.f >= pow2f(63)) ==> err != nil
+
+//@ func (*cfgFloat).toUint
+//@ props C03
+//@ mode bv
+//@ requires c != nil
+//@ ensures [val] err == nil ==> !isNaN(c.f) && c.f > -pow2f(0) && c.f < pow2f(64)
+//@ ensures [err] (isNaN(c.f) || c.f < -pow2f(0) || c.f >= pow2f(64)) ==> err != nil
+
+//@ ghost func parsesInt(s string) bool
+//@ ghost func intOf(s string) int64 inverse ghost_itoa guard parsesInt
+
+//@ func parseField
+//@ props C20 C12
+//@ ensures [index_iff] (typeof(result) == idxField) == (!enableNumKeys && parsesInt(in) && 0 <= intOf(in) && intOf(in) <= maxIdx)
+//@ ensures [index_val] typeof(result) == idxField ==> result.(idxField).i == intOf(in)
+//@ ensures [name] typeof(result) != idxField ==> typeof(result) == namedField && result.(namedField).name == in
+
+//@ func (*fields).delAt
+//@ props C12
+//@ requires f != nil
+//@ ensures [oob] !(0 <= i && i < len(old(f.a))) ==> !result && f.a == old(f.a)
+//@ ensures [len] (0 <= i && i < len(old(f.a))) ==> result && len(f.a) == len(old(f.a)) - 1
+//@ ensures [prefix] (0 <= i && i < len(old(f.a))) ==> forall j int :: 0 <= j && j < i ==> f.a[j] == old(f.a[j])
+//@ ensures [shift] (0 <= i && i < len(old(f.a))) ==> forall j int :: i <= j && j < len(f.a) ==> f.a[j] == old(f.a[j+1])
+
+//@ func (*fields).setAt
+//@ props C12 C01
+//@ requires f != nil
+//@ requires 0 <= idx && idx < 9223372036854775807
+//@ modifies f.a, elems(f.a)
+//@ ensures [keepold] forall j int :: 0 <= j && j < len(old(f.a)) && j != idx ==> old(f.a)[j] == old(f.a[j])
+//@ ensures [newbase] idx >= len(old(f.a)) ==> fresh(f.a)
+//@ ensures [samebase] idx < len(old(f.a)) ==> f.a == old(f.a)
+
+//@ ensures [at] f.a[idx] == v
+//@ ensures [lenmax] idx < len(old(f.a)) ==> len(f.a) == len(old(f.a))
+//@ ensures [lengrow] idx >= len(old(f.a)) ==> len(f.a) == idx + 1
+//@ ensures [frame] forall j int :: 0 <= j && j < len(old(f.a)) && j != idx ==> f.a[j] == old(f.a[j])
+//@ ensures [pad] forall j int :: len(old(f.a)) <= j && j < idx ==> isNilVal(f.a[j])
+//@ loop 1 invariant l <= i && i <= idx
+//@ loop 1 invariant len(tmp) == idx + 1
+//@ loop 1 invariant forall j int :: 0 <= j && j < l ==> tmp[j] == old(f.a[j])
+//@ loop 1 invariant forall j int :: l <= j && j < i ==> isNilVal(tmp[j])
+//@ loop 1 invariant f.a == old(f.a)
+//@ loop 1 invariant forall j int :: 0 <= j && j < len(old(f.a)) ==> old(f.a)[j] == old(f.a[j])
+//@ loop 1 decreases idx - i
+
+//@ ghost func cfgEval(v value) *Config
+
+//@ func iface:value.toConfig :: self, opts -> c, err
+//@ pure
+//@ ensures err == nil ==> c != nil && c.fields != nil
+//@ ensures err == nil ==> c == cfgEval(self)
+
+//@ func (*fields).array
+//@ props C12
+//@ requires f != nil
+//@ pure
+//@ ensures result == f.a
+
+//@ func raiseExpectedObject
+//@ trusted
+//@ pure
+//@ ensures result != nil
+
+//@ func raiseMissing
+//@ trusted
+//@ pure
+//@ ensures result != nil
+
+//@ func (idxField).String
+//@ trusted
+//@ pure
+
+//@ func (idxField).GetValue
+//@ props C12
+//@ requires elem != nil
+//@ ensures [hit] err == nil && cfgEval(elem) != nil ==> 0 <= i.i && i.i < len(cfgEval(elem).fields.a) && result == cfgEval(elem).fields.a[i.i]
+
+//@ func lexer$1$2
+//@ props C07
+//@ pure
+
+//@ func lexer$1$1
+//@ props C07
+//@ pure
+
+//@ func lexer$1
+//@ props C07
+//@ loop 1 invariant 0 <= off && off <= len(content)
+//@ loop 1 decreases len(content) - off
+
+//@ func (parseState).finalize
+//@ trusted
+//@ pure
+//@ ensures !st.isvar ==> err != nil
+
+//@ func addString
+//@ trusted
+//@ pure
+//@ ensures len(result) >= 1
+
+//@ func parseVarExp
+//@ props C07
+//@ loop 1 invariant len(stack) >= 1
+//@ loop 1 invariant !stack[0].isvar
+//@ loop 1 invariant forall j int :: 0 <= j && j < len(stack) ==> (stack[j].st == 0 || stack[j].st == 1)
+
+//@ ghost func mergedWith(c *Config, from interface{}, opts []Option) bool
+
+//@ func New
+//@ trusted
+//@ pure
+//@ ensures result != nil && fresh(result)
+
+//@ func (*Config).Merge :: c, from, options -> err
+//@ trusted
+//@ requires c != nil
+//@ modifies tree(c)
+//@ ensures mergedWith(c, from, options)
+
+//@ ghost func copyOf(r value, x value) bool
+
+//@ func iface:value.cpy :: self, c -> r
+//@ pure
+//@ ensures r != nil && copyOf(r, self) && fresh(r)
+
+//@ func (*fields).append
+//@ props C01 C10
+//@ requires f != nil
+//@ requires len(f.a) + len(a) < 9223372036854775807
+//@ requires base(a) != base(f.a)
+//@ requires forall j int :: 0 <= j && j < len(a) ==> a[j] != nil
+//@ modifies f.a, elems(f.a)
+//@ ensures [len] len(f.a) == len(old(f.a)) + len(a)
+//@ ensures [prefix] forall j int :: 0 <= j && j < len(old(f.a)) ==> f.a[j] == old(f.a[j])
+//@ ensures [copies] forall j int :: 0 <= j && j < len(a) ==> copyOf(f.a[len(old(f.a)) + j], old(a[j]))
+//@ ensures [copiesAbs] forall k int :: len(old(f.a)) <= k && k < len(f.a) ==> copyOf(f.a[k], old(a[k - len(old(f.a))]))
+//@ ensures [fresh] len(a) > 0 ==> fresh(f.a)
+//@ ensures [same] len(a) == 0 ==> f.a == old(f.a)
+//@ loop 1 invariant 0 <= i && i <= count && l == len(old(f.a)) + i && len(f.a) == l
+//@ loop 1 invariant i > 0 ==> fresh(f.a)
+//@ loop 1 invariant i == 0 ==> f.a == old(f.a)
+//@ loop 1 invariant forall j int :: 0 <= j && j < len(a) ==> a[j] == old(a[j])
+//@ loop 1 invariant forall j int :: 0 <= j && j < len(old(f.a)) ==> f.a[j] == old(f.a[j])
+//@ loop 1 invariant forall j int :: 0 <= j && j < i ==> copyOf(f.a[len(old(f.a)) + j], old(a[j]))
+//@ loop 1 decreases count - i
+
+//@ func mergeConfigAppendArr
+//@ props C01 C10
+//@ requires to != nil && to.fields != nil && from != nil && from.fields != nil
+//@ requires base(from.fields.a) != base(to.fields.a)
+//@ requires len(to.fields.a) + len(from.fields.a) < 9223372036854775807
+//@ requires forall j int :: 0 <= j && j < len(from.fields.a) ==> from.fields.a[j] != nil
+//@ modifies to.fields.a, elems(to.fields.a)
+//@ ensures [err] result == nil
+//@ ensures [len] len(to.fields.a) == len(old(to.fields.a)) + len(old(from.fields.a))
+//@ ensures [AthenB_prefix] forall j int :: 0 <= j && j < len(old(to.fields.a)) ==> to.fields.a[j] == old(to.fields.a[j])
+//@ ensures [AthenB_copies] forall j int :: 0 <= j && j < len(old(from.fields.a)) ==> copyOf(to.fields.a[len(old(to.fields.a)) + j], old(from.fields.a[j]))
+//@ ensures [dict] to.fields.d == old(to.fields.d)
+
+//@ func mergeConfigPrependArr
+//@ props C01 C10
+//@ requires to != nil && to.fields != nil && from != nil && from.fields != nil
+//@ requires len(to.fields.a) + len(from.fields.a) < 9223372036854775807
+//@ requires forall j int :: 0 <= j && j < len(from.fields.a) ==> from.fields.a[j] != nil
+//@ requires forall j int :: 0 <= j && j < len(to.fields.a) ==> to.fields.a[j] != nil
+//@ modifies to.fields.a, to.fields.d
+//@ ensures [err] result == nil
+//@ ensures [emptyB] len(old(from.fields.a)) == 0 ==> to.fields.a == old(to.fields.a)
+//@ ensures [len] len(old(from.fields.a)) > 0 ==> len(to.fields.a) == len(old(to.fields.a)) + len(old(from.fields.a))
+//@ ensures [BthenA_B] len(old(from.fields.a)) > 0 ==> forall j int :: 0 <= j && j < len(old(from.fields.a)) ==> copyOf(to.fields.a[j], old(from.fields.a[j]))
+//@ ensures [BthenA_A] len(old(from.fields.a)) > 0 ==> forall j int :: 0 <= j && j < len(old(to.fields.a)) ==> copyOf(to.fields.a[len(old(from.fields.a)) + j], old(to.fields.a[j]))
+//@ ensures [dict] to.fields.d == old(to.fields.d)
+
+//@ func mergeConfigReplaceArr
+//@ props C01 C10
+//@ requires to != nil && to.fields != nil && from != nil && from.fields != nil
+//@ requires len(from.fields.a) < 9223372036854775807
+//@ requires forall j int :: 0 <= j && j < len(from.fields.a) ==> from.fields.a[j] != nil
+//@ modifies to.fields.a, to.fields.d
+//@ ensures [err] result == nil
+//@ ensures [emptyB] len(old(from.fields.a)) == 0 ==> to.fields.a == old(to.fields.a)
+//@ ensures [len] len(old(from.fields.a)) > 0 ==> len(to.fields.a) == len(old(from.fields.a))
+//@ ensures [Balone] len(old(from.fields.a)) > 0 ==> forall j int :: 0 <= j && j < len(old(from.fields.a)) ==> copyOf(to.fields.a[j], old(from.fields.a[j]))
+//@ ensures [dict] to.fields.d == old(to.fields.d)
+
+//@ ghost func mvSpec(old value, v value) value
+
+//@ func fieldOptsOverride
+//@ trusted
+//@ pure
+//@ ensures result1 == nil ==> result0 != nil
+
+//@ func mergeValues :: opts, old, v -> r, err
+//@ trusted
+//@ requires v != nil
+//@ modifies tree(cfgEval(old))
+//@ ensures err == nil ==> r != nil && r == mvSpec(old, v)
+
+//@ func mergeConfigMergeArr
+//@ props C01
+//@ requires to != nil && to.fields != nil && from != nil && from.fields != nil
+//@ requires base(from.fields.a) != base(to.fields.a)
+//@ requires len(to.fields.a) + len(from.fields.a) < 9223372036854775807
+//@ requires forall j int :: 0 <= j && j < len(from.fields.a) ==> from.fields.a[j] != nil
+//@ requires forall j int :: 0 <= j && j < len(to.fields.a) ==> to.fields.a[j] != nil
+//@ requires inTree(to, to.fields) && inTree(to, base(to.fields.a))
+//@ requires forall j int :: 0 <= j && j < len(to.fields.a) ==> !inTree(cfgEval(to.fields.a[j]), to) && !inTree(cfgEval(to.fields.a[j]), to.fields) && !inTree(cfgEval(to.fields.a[j]), base(to.fields.a)) && !inTree(cfgEval(to.fields.a[j]), from) && !inTree(cfgEval(to.fields.a[j]), from.fields) && !inTree(cfgEval(to.fields.a[j]), base(from.fields.a))
+//@ requires forall j int :: 0 <= j && j < len(to.fields.a) ==> forall x int :: inTree(cfgEval(to.fields.a[j]), x) ==> inTree(to, x)
+//@ modifies tree(to)
+//@ ensures [lenA] result == nil && len(old(to.fields.a)) >= len(old(from.fields.a)) ==> len(to.fields.a) == len(old(to.fields.a))
+//@ ensures [lenB] result == nil && len(old(to.fields.a)) < len(old(from.fields.a)) ==> len(to.fields.a) == len(old(from.fields.a))
+//@ ensures [merged] result == nil ==> forall j int :: 0 <= j && j < len(old(to.fields.a)) && j < len(old(from.fields.a)) ==> copyOf(to.fields.a[j], mvSpec(old(to.fields.a[j]), old(from.fields.a[j])))
+//@ ensures [tailB] result == nil ==> forall j int :: len(old(to.fields.a)) <= j && j < len(old(from.fields.a)) ==> copyOf(to.fields.a[j], old(from.fields.a[j]))
+//@ ensures [tailA] result == nil ==> forall j int :: len(old(from.fields.a)) <= j && j < len(old(to.fields.a)) ==> to.fields.a[j] == old(to.fields.a[j])
+//@ loop 1 invariant 0 <= i && i <= l
+//@ loop 1 invariant to.fields == old(to.fields) && from.fields == old(from.fields) && to.fields.a == old(to.fields.a) && from.fields.a == old(from.fields.a)
+//@ loop 1 invariant forall j int :: 0 <= j && j < len(from.fields.a) ==> from.fields.a[j] == old(from.fields.a[j])
+//@ loop 1 invariant forall j int :: i <= j && j < len(to.fields.a) ==> to.fields.a[j] == old(to.fields.a[j])
+//@ loop 1 invariant forall j int :: 0 <= j && j < i ==> copyOf(to.fields.a[j], mvSpec(old(to.fields.a[j]), old(from.fields.a[j])))
+//@ loop 1 decreases l - i
+
+//@ func (*fields).get
+//@ props C12
+//@ requires f != nil
+//@ pure
+//@ ensures [ok] result1 == has(f.d, name)
+//@ ensures [val] result1 ==> result0 == f.d[name]
+//@ ensures [miss] !result1 ==> result0 == nil
+
+//@ func (*fields).set
+//@ props C12
+//@ requires f != nil
+//@ modifies f.d, map(f.d)
+//@ ensures [in] has(f.d, name) && f.d[name] == v
+//@ ensures [frame] old(f.d) != nil ==> f.d == old(f.d)
+//@ ensures [others] forall k string :: k != name ==> has(f.d, k) == old(has(f.d, k)) && (has(f.d, k) ==> f.d[k] == old(f.d[k]))
+//@ ensures [arr] f.a == old(f.a)
+
+//@ func (*fields).del
+//@ props C12
+//@ requires f != nil
+//@ modifies map(f.d)
+//@ ensures [ret] result == old(has(f.d, name))
+//@ ensures [gone] !has(f.d, name)
+//@ ensures [others] forall k string :: k != name ==> has(f.d, k) == old(has(f.d, k)) && (has(f.d, k) ==> f.d[k] == old(f.d[k]))
+
+//@ func (*fieldSet).Add
+//@ props C08
+//@ requires s != nil && s.fields != nil
+//@ modifies map(s.fields)
+//@ ensures has(s.fields, name)
+//@ ensures forall k string :: k != name ==> has(s.fields, k) == old(has(s.fields, k))
+
+//@ func (*fields).dict
+//@ props C12
+//@ requires f != nil
+//@ pure
+//@ ensures result == f.d
+
+//@ func (*Config).GetFields
+//@ props C12
+//@ requires c != nil && c.fields != nil
+//@ pure
+//@ ensures [sound] forall j int :: 0 <= j && j < len(result) ==> has(c.fields.d, result[j])
+//@ loop 1 invariant forall j int :: 0 <= j && j < len(names) ==> has(c.fields.d, names[j])
+//@ loop 1 invariant forall k string :: visited(k) ==> has(c.fields.d, k)
+
+//@ ghost func splitLen(s string, sep string) int
+//@ ghost func splitAt(s string, sep string, i int) string
+//@ ghost func fieldSpec(in string, maxIdx int64, enableNumKeys bool) field
+
+//@ func parsePath
+//@ props C12 C20
+//@ ensures [nonempty] len(result.fields) >= 1
+//@ ensures [sep] result.sep == sep
+//@ ensures [single] sep == "" ==> len(result.fields) == 1
+//@ ensures [count] sep != "" && !allowEscapePath ==> len(result.fields) == splitLen(in, sep)
+//@ loop 1 invariant len(fields) == rangeindex + 1 && -1 <= rangeindex && rangeindex < len(elems)
+//@ loop 1 invariant len(elems) == splitLen(in, sep) && len(elems) >= 1
+//@ loop 1 decreases len(elems) - rangeindex
+
+//@ func parsePathWithOpts
+//@ props C12 C20
+//@ requires opts != nil
+//@ ensures [nonempty] len(result.fields) >= 1
+
+//@ func parsePathIdx
+//@ props C12 C20
+//@ requires opts != nil
+//@ ensures [nonempty] len(result.fields) >= 1
+//@ ensures [onlyidx] in == "" ==> len(result.fields) == 1 && typeof(result.fields[0]) == idxField && result.fields[0].(idxField).i == idx
+
+//@ func iface:field.GetValue :: self, opt, elem -> r, err
+//@ pure
+
+//@ func iface:field.String :: self -> r
+//@ pure
+
+//@ func (cfgPath).Has
+//@ props C12
+//@ requires cfg != nil
+//@ requires forall j int :: 0 <= j && j < len(p.fields) ==> p.fields[j] != nil
+//@ loop 1 invariant forall j int :: 0 <= j && j < len(fields) ==> fields[j] != nil
+//@ loop 1 invariant cur != nil
+//@ loop 1 decreases len(fields)
+
+//@ func (cfgPath).GetValue
+//@ props C12
+//@ requires cfg != nil && len(p.fields) >= 1
+//@ requires forall j int :: 0 <= j && j < len(p.fields) ==> p.fields[j] != nil
+//@ loop 1 invariant len(fields) >= 1
+//@ loop 1 invariant forall j int :: 0 <= j && j < len(fields) ==> fields[j] != nil
+//@ loop 1 invariant cur != nil
+//@ loop 1 decreases len(fields)
